@@ -291,10 +291,18 @@ impl LogState {
                     match g.kind() {
                         "unchanged" => {
                             if matches.is_present("unchanged") {
+                                // (a printed record interrupts this target's section, just
+                                // like a "do" record below: the next plain line of this
+                                // log must be announced with "resumed", also when the
+                                // dependency's own log turns out to be empty)
                                 if auto_bool_arg(&matches, "debug-locks").unwrap_or(false) {
                                     logs::meta(g.kind(), &relname, Some(g.pid()));
+                                    interrupted += 1;
+                                    lines_written += 1;
                                 } else if !self.already.contains(&fixname) {
                                     logs::meta("do", &relname, Some(g.pid()));
+                                    interrupted += 1;
+                                    lines_written += 1;
                                 }
                                 if matches.is_present("recursive") {
                                     if let Some((_, loglock, _)) = info.as_mut() {
